@@ -27,6 +27,7 @@ QUICK = [
     ('structured', dict(T=2), None, 'B'),
     ('split_two_node', dict(T=4, freq='12h', unit='h', wacc=True), 'd', 'A'),
     ('split_unaligned', dict(T=5, freq='6h', unit='h'), 'd', 'A'),
+    ('split_orderbook_last', dict(T=4, ob_last=True, orders=((0, 1, 2.0), (2, 4, -1.5), (3, 4, 1.0))), '2h', 'A'),
 ]
 THOROUGH = QUICK + [
     ('two_node_T4_2n', dict(T=4, wacc=True, two_node_storage=True), None, 'B'),
@@ -42,7 +43,7 @@ THOROUGH = QUICK + [
     ('split_orderbook', dict(T=4, orders=((0, 1, 2.0), (2, 4, -1.5), (1, 2, 1.0))), '2h', 'A'),
     ('split_T6_day_unit', dict(T=6, freq='8h', unit='d', wacc=True), 'd', 'A'),
 ]
-SHAPE_OF = dict(c01.SHAPE_OF, contract_storage_win='contract_storage', orderbook_outside='orderbook',
+SHAPE_OF = dict(c01.SHAPE_OF, split_orderbook_last='orderbook', contract_storage_win='contract_storage', orderbook_outside='orderbook',
                 two_node_T4_2n='two_node', chp='plant', scaled_take='scaled', split_T6_day_unit='two_node',
                 periodic_transport_dur='periodic')
 BOUNDS = dict(quick='shapes %s, T<=8, all numbers symbolic (Level B; split at Level A)' % [c[0] for c in QUICK],
